@@ -130,14 +130,16 @@ impl TransportManagerHandle {
         let mut iter = address.iter();
 
         match iter.next() {
-            Some(Protocol::Ip4(address)) =>
+            Some(Protocol::Ip4(address)) => {
                 if address.is_unspecified() {
                     return false;
-                },
-            Some(Protocol::Ip6(address)) =>
+                }
+            }
+            Some(Protocol::Ip6(address)) => {
                 if address.is_unspecified() {
                     return false;
-                },
+                }
+            }
             Some(Protocol::Dns(_)) | Some(Protocol::Dns4(_)) | Some(Protocol::Dns6(_)) => {}
             _ => return false,
         }
@@ -145,20 +147,24 @@ impl TransportManagerHandle {
         match iter.next() {
             None => false,
             Some(Protocol::Tcp(_)) => match (iter.next(), iter.next(), iter.next()) {
-                (Some(Protocol::P2p(_)), None, None) =>
-                    self.supported_transport.contains(&SupportedTransport::Tcp),
+                (Some(Protocol::P2p(_)), None, None) => {
+                    self.supported_transport.contains(&SupportedTransport::Tcp)
+                }
                 #[cfg(feature = "websocket")]
-                (Some(Protocol::Ws(_)), Some(Protocol::P2p(_)), None) =>
-                    self.supported_transport.contains(&SupportedTransport::WebSocket),
+                (Some(Protocol::Ws(_)), Some(Protocol::P2p(_)), None) => {
+                    self.supported_transport.contains(&SupportedTransport::WebSocket)
+                }
                 #[cfg(feature = "websocket")]
-                (Some(Protocol::Wss(_)), Some(Protocol::P2p(_)), None) =>
-                    self.supported_transport.contains(&SupportedTransport::WebSocket),
+                (Some(Protocol::Wss(_)), Some(Protocol::P2p(_)), None) => {
+                    self.supported_transport.contains(&SupportedTransport::WebSocket)
+                }
                 _ => false,
             },
             #[cfg(feature = "quic")]
             Some(Protocol::Udp(_)) => match (iter.next(), iter.next(), iter.next()) {
-                (Some(Protocol::QuicV1), Some(Protocol::P2p(_)), None) =>
-                    self.supported_transport.contains(&SupportedTransport::Quic),
+                (Some(Protocol::QuicV1), Some(Protocol::P2p(_)), None) => {
+                    self.supported_transport.contains(&SupportedTransport::Quic)
+                }
                 _ => false,
             },
             _ => false,
@@ -306,8 +312,9 @@ impl TransportManagerHandle {
             };
 
             match state.can_dial() {
-                StateDialResult::AlreadyConnected =>
-                    return Err(ImmediateDialError::AlreadyConnected),
+                StateDialResult::AlreadyConnected => {
+                    return Err(ImmediateDialError::AlreadyConnected)
+                }
                 StateDialResult::DialingInProgress => return Ok(()),
                 StateDialResult::Ok => {}
             };
